@@ -63,13 +63,15 @@ Definition run_rm_codesep (subb : bytes) : string :=
   out3 impl spec "-".
 
 (* tx.sign_verify: the driver signs, then reports the preimage of a fresh copy, the flag byte at the end of
-   SighashSignature::to_bytes, Transaction::verify, and ECDSA::verify_digest of the DER part against the
-   preimage (hash Sha256d).  The model says: the preimage, the flag, true, true. *)
+   SighashSignature::to_bytes, Transaction::verify, ECDSA::verify_digest of the DER part against the
+   preimage (hash Sha256d), Transaction::_verify(.., false), and Transaction::verify under a different key.
+   With a 7th argument (ephemeral key) the driver uses sign_with_k.
+   The model says: the preimage, the flag, true, true, true, false. *)
 Definition run_sign_verify (txb : bytes) (f idx : N) (subb : bytes) (v : N) : string :=
   match tx_from_bytes txb, from_bytes subb with
   | Ok t, Ok sub =>
       let i := clamp_idx t idx in
-      let tail := ";" +++ dec_of_N f +++ ";1;1" in
+      let tail := ";" +++ dec_of_N f +++ ";1;1;1;0" in
       let impl := match sighash_preimage H_impl t i f sub v with
                   | Ok p => "OK:" +++ show_bytes p +++ tail | Err => "ERR" | Panic => "PANIC" end in
       let spec := match tokenize_spec subb with
@@ -104,6 +106,12 @@ Definition run (op : string) (args : list string) : string :=
       | Some txb, Some _, Some f, Some i, Some subb, Some v =>
           if is_sighash f then run_sign_verify txb f i subb v else "BADARG"
       | _, _, _, _, _, _ => "BADARG"
+      end
+  | "tx.sign_verify", [txd; key; fl; idx; subd; vd; kd] =>
+      match expand txd, expand key, N_of_dec fl, N_of_dec idx, expand subd, N_of_dec vd, expand kd with
+      | Some txb, Some _, Some f, Some i, Some subb, Some v, Some _ =>
+          if is_sighash f then run_sign_verify txb f i subb v else "BADARG"
+      | _, _, _, _, _, _, _ => "BADARG"
       end
   | _, _ => "BADOP"
   end.
